@@ -165,8 +165,11 @@ Theorem C04_adff_no_reset w q d init clk_edge : adff_next w q d init clk_edge fa
 Proof. exact (adff_no_reset w q d init clk_edge). Qed.
 Print Assumptions C04_adff_no_reset.
 
-(* EXCLUDED from the equivalence (known defect F7): reset-less signals (and Print/Assert/memory writes) of an
-   async-reset domain — on a reset rise with no clock edge the simulator runs the whole sync process, the $dff holds *)
+(* WHY the simulator must not run the sync process on a reset rise alone (finding F7, repaired in /repo by 574e1db:
+   the simulator now only loads the reset values, = C04_adff_reset): running Model/Process.v sync_process on a reset
+   rise with no clock edge changes a reset-less register, while its $dff holds.  Since the repair, reset-less
+   registers, memories and every coincidence of reset and clock edges in async-reset domains are compared by layer B
+   like everything else (streams arst / rnd), with no exclusion. *)
 Theorem C04_async_reset_rise_refuted : exists tab ss r st i,
   sd_reset_less (tab i) = true /\
   s_next (sync_process tab ss (Some r) st) i <> dff_next (s_curr st i) (s_next (sync_process tab ss (Some r) st) i) false.
